@@ -1,8 +1,10 @@
 //! vh-driver: conformance harness for the `scylla` crate (built with --cfg scylla_verif).
 mod c02;
+mod c03;
 mod c06;
 use c06 as c06_support;
 mod exec;
+mod c11;
 mod c13;
 mod c15;
 mod c18;
@@ -39,7 +41,9 @@ fn main() {
         ("c02", "exhaust") => c02::cmd_exhaust(rest),
         ("c02", "router") => c02::cmd_router(rest),
         ("exec", "run") => exec::cmd_run(rest),
+        ("c03", "run") => c03::cmd_run(rest),
         ("c06", "walk") => c06::cmd_walk(rest),
+        ("c11", "run") => c11::cmd_run(rest),
         ("c13", "run") => c13::cmd_run(rest),
         ("c15", "walk") => c15::cmd_walk(rest),
         ("c15", "random") => c15::cmd_random(rest),
